@@ -259,7 +259,7 @@ class SelectorWorld:
         fired = dict(st["fired"])
         probes = dict(st["probes"])
         kinds = ",".join(f"{o['op']}" + ("w" if o.get("warm") else "") for o in self.trace["ops"])
-        classes = ",".join(sorted({m["cls"] for m in self.meta.values()}))
+        classes = ",".join(sorted({str(m.get("cls")) for m in self.meta.values()}))
         sig = "|".join([classes, kinds, ",".join(sorted(fired)), ",".join(sorted(probes))])
         return {
             "violations": self.violations,
@@ -307,7 +307,9 @@ class SelectorWorld:
             init = op["params"].get("initialize")
             try:
                 ok = (src is not None and sm is not None and not sm.get("retired_for_warm") and sm["ok_fits"] > 0
-                      and int(src.n_selected_) > 0 and isinstance(init, dict) and init.get("$prefix_of") == op["twin_from"])
+                      and int(src.n_selected_) > 0 and isinstance(init, dict) and init.get("$prefix_of") == op["twin_from"]
+                      # ... and the arrays it selected from still hold the same values
+                      and sm.get("data_snap") is not None and sm["data_snap"][0] == self.heap.entries[sm["data"][0]]["snap"])
             except Exception:  # noqa: BLE001
                 ok = False
             if not ok:
@@ -335,7 +337,18 @@ class SelectorWorld:
         m = self.meta[name]
         for k, v in op["params"].items():
             rv = self.resolve_param(v, name)
-            setattr(obj, k, rv)
+            done = False
+            if op.get("how") == "set_params":
+                try:
+                    obj.set_params(**{k: rv})
+                    done = True
+                    self.count("set_by_set_params")
+                except ValueError:
+                    # VoronoiFPS hides the inherited parameters from get_params (**kwargs
+                    # constructor), so set_params refuses them: plain assignment instead
+                    self.count("set_params_refused_attribute_assigned")
+            if not done:
+                setattr(obj, k, rv)
             m["params"][k] = v
             m["resolved"][k] = rv
         self.log.add("SET", name, sorted(op["params"]))
@@ -357,7 +370,11 @@ class SelectorWorld:
                 args.append(self.heap.get(m["data"][1]) if m["data"][1] else None)
         try:
             with self.env.op(None):
-                getattr(obj, meth)(*args, **kw)
+                res = getattr(obj, meth)(*args, **kw)
+            if op.get("scribble") and isinstance(res, np.ndarray) and res.dtype.kind == "f" and res.flags.writeable:
+                res *= -3.0
+                res += 1.0
+                self.count("caller_rescaled_the_transform_result_in_place")
             self.log.add("READ", name, meth, "ok")
             self.count("reads_ok")
         except Exception as e:  # noqa: BLE001
@@ -411,6 +428,8 @@ class SelectorWorld:
         m2["params"] = dict(m["params"])
         m2["resolved"] = dict(m["resolved"])
         m2["history"] = list(m["history"])
+        m2["lane"] = None  # the copy goes its own way: not a member of the clock lanes
+        m2["finals"] = {}
         self.meta[name] = m2
         self.stats["fired"]["restart:shallow_copy_fork"] += 1
         self.log.add("FORK", src, name)
@@ -474,6 +493,14 @@ class SelectorWorld:
             elif want <= have or not same:
                 self.count("out_of_domain_warm_not_increasing")
                 return
+        if m.get("twin_from"):
+            # initialised with another object's selected prefix: only comparable on the values
+            # that object selected from (domain guard, also for reduced traces)
+            sm = self.meta.get(m["twin_from"]) or {}
+            if sm.get("data_snap") is None or sm["data_snap"][0] != self.heap.entries[op["X"]]["snap"]:
+                self.count("out_of_domain_prefix_object_on_other_data")
+                m["retired"] = True
+                return
         if self.pid == "C08" and not op.get("expect"):
             self.c08_prepare(name, m, op)
         if not warm:
@@ -496,6 +523,15 @@ class SelectorWorld:
                             self.count("interrupt_not_reached")
                     elif warm:
                         ret = obj.fit(X, y, warm_start=_warm_form(op))
+                    elif op.get("via_fit_transform") and info["axis"] == 1:
+                        # the scikit-learn way of fitting a feature selector; the caller then
+                        # rescales the array it got back, in place (new data for the caller)
+                        res = obj.fit_transform(X, y) if y is not None else obj.fit_transform(X)
+                        ret = obj
+                        if isinstance(res, np.ndarray) and res.dtype.kind == "f" and res.flags.writeable:
+                            res *= -3.0
+                            res += 1.0
+                            self.count("caller_rescaled_the_fit_transform_result_in_place")
                     else:
                         ret = obj.fit(X, y)
                     rec.ret_is_self = ret is obj
@@ -1057,6 +1093,50 @@ class SelectorWorld:
         """Cold fit of a fresh estimator in a quiet environment on fresh copies that have
         the memory layout of the array the history's own cold fit was given (`layout_of`),
         so that both sides perform the same arithmetic."""
+        out = self._in_child(lambda: self._quiet_twin_here(cls, params, Xn, yn, layout_of))
+        self.count("twin_fits")
+        return out
+
+    def _in_child(self, fn):
+        """Run fn() in a forked copy of this process and return its (pickled) result: the
+        history-free reference fit must not leave traces in the process that hosts the history
+        (module-level caches, pools, hidden solver state), or the harness itself would evict
+        or refresh exactly the shared state a history depends on. Falls back to running in
+        place if the result cannot be transferred."""
+        import pickle as _pk
+
+        if os.environ.get("HOSTSIM_TWIN_IN_PROCESS") == "1" or not self.trace.get("fork_twins"):
+            return fn()
+        self.probe("reference_fits_isolated_in_a_forked_child")
+        r, w = os.pipe()
+        pid = os.fork()
+        if pid == 0:
+            code = 0
+            try:
+                os.close(r)
+                try:
+                    data = _pk.dumps(("ok", fn()), protocol=4)
+                except BaseException as e:  # noqa: BLE001
+                    data = _pk.dumps(("fail", f"{type(e).__name__}: {e}"), protocol=4)
+                    code = 3
+                with os.fdopen(w, "wb") as f:
+                    f.write(data)
+            finally:
+                os._exit(code)
+        os.close(w)
+        with os.fdopen(r, "rb") as f:
+            data = f.read()
+        os.waitpid(pid, 0)
+        try:
+            status, res = _pk.loads(data)
+        except Exception:  # noqa: BLE001
+            status, res = "fail", "unreadable"
+        if status != "ok":
+            self.count("twin_in_child_failed_ran_in_place")
+            return fn()
+        return res
+
+    def _quiet_twin_here(self, cls, params, Xn, yn, layout_of):
         Xc = self.heap.twin_copy_like(Xn, layout_of)
         yc = self.heap.twin_copy(yn) if yn else None
         out = {"exc": None}
@@ -1082,7 +1162,6 @@ class SelectorWorld:
             self.env.progress.on_step = prev_cb
         out["obj"] = tw
         out["rec"] = rec
-        self.count("twin_fits")
         return out
 
     def twin_params(self, m):
@@ -1107,9 +1186,20 @@ class SelectorWorld:
         """Before an object's first fit: the cold fit with the final count, in a quiet
         environment. Gives the score range (for provably unreached thresholds) and the
         reference for the prefix clause."""
-        if m.get("final_done") or m.get("final") is None:
+        if m.get("final") is None:
+            return
+        # (recomputed when the caller has refilled the arrays since: the reference run must
+        # see the values the object's fits see)
+        try:
+            key = (op["X"], self.heap.entries[op["X"]]["snap"], self.heap.entries[op["y"]]["snap"] if op.get("y") else None)
+        except KeyError:
+            key = None
+        if m.get("final_done") and m.get("final_key") == key:
             return
         m["final_done"] = True
+        m["final_key"] = key
+        m.pop("twin_final", None)
+        m.pop("twin_final_scores", None)
         cls, p = self.twin_params(m)
         p["n_to_select"] = int(m["final"])
         p.pop("score_threshold", None)
